@@ -231,6 +231,9 @@ def run(run, model):
     run.do(effects.no_memo, model, "C18.no-memo")
     from . import c17
     run.do(c17.invariant_decorator_table, model, "C18.decorator-lists")
+    # ``snap.capture(**selected)`` by hand gives what the checker binds to ``OLD.<snap.name>``
+    from . import c08
+    run.do(c08.capture_helpers, model, "C18.capture-value")
     # what the dunders list is what is enforced: evaluating the listed contracts by hand gives the checker's verdict
     for role, ck in gates.checkers(model).items():
         for kind, depth in (("PRE", 2), ("POST", 1)):
